@@ -57,15 +57,11 @@ def _decode(L, model, probes):
     return out
 
 
-def _solve(idx_budget):
-    idx, budget_ms, want_smt2, use_cvc5 = idx_budget
-    inst = _WORK[idx]
-    L = inst.L
+def _z3_check(L, hyps, goal, budget_ms, extra=()):
     s = z3.Solver()
-    s.set("timeout", budget_ms)
-    fs = list(inst.hyps) + [L.Not(inst.goal)]
-    ax = L.relevant_axioms(fs)
-    for a in ax:
+    s.set("timeout", int(budget_ms))
+    fs = list(hyps) + list(extra) + [L.Not(goal)]
+    for a in L.relevant_axioms(fs):
         s.add(a)
     for f in fs:
         s.add(f)
@@ -73,33 +69,127 @@ def _solve(idx_budget):
     try:
         r = s.check()
     except z3.Z3Exception as e:   # pragma: no cover
-        return idx, "undecided", 0.0, None, f"z3 exception {e}", None, "z3"
+        return "unknown", (time.time() - t0) * 1000, s, f"z3 exception {e}"
     ms = (time.time() - t0) * 1000
+    st = "unsat" if r == z3.unsat else ("sat" if r == z3.sat else "unknown")
+    return st, ms, s, (s.reason_unknown() if st == "unknown" else "")
+
+
+def _cvc5_check(solver, budget_ms):
+    txt = solver.to_smt2()
+    t1 = time.time()
+    ans = ""
+    try:
+        p = subprocess.run([CVC5, "--lang=smt2", f"--tlimit={int(budget_ms)}", "--full-saturate-quant"],
+                           input=txt, capture_output=True, text=True, timeout=budget_ms / 1000 + 5)
+        ans = p.stdout.strip().splitlines()[0] if p.stdout.strip() else ""
+    except Exception:   # pragma: no cover
+        ans = ""
+    return ans, (time.time() - t1) * 1000
+
+
+def prove(L, hyps, goal, budget_ms, use_cvc5=True, extra=()):
+    """unsat of hyps & not goal.  z3 first (short budget), then cvc5 on the same SMT-LIB text, then z3 with the full budget.
+    Returns (status in {'unsat','sat','unknown'}, backend, ms, z3 solver, reason)."""
+    first = min(budget_ms, 3000) if (use_cvc5 and L.k is None) else budget_ms
+    st, ms, s, why = _z3_check(L, hyps, goal, first, extra)
+    if st != "unknown":
+        return st, "z3", ms, s, why
+    total = ms
+    if use_cvc5 and L.k is None:
+        ans, ms2 = _cvc5_check(s, min(budget_ms, 6000))
+        total += ms2
+        if ans == "unsat":
+            return "unsat", "cvc5", total, s, ""
+        if first < budget_ms:
+            st, ms3, s, why = _z3_check(L, hyps, goal, budget_ms, extra)
+            total += ms3
+            if st != "unknown":
+                return st, "z3", total, s, why
+    return "unknown", "z3", total, s, why
+
+
+def _solve(idx_budget):
+    idx, budget_ms, want_smt2, use_cvc5 = idx_budget
+    inst = _WORK[idx]
+    L = inst.L
+    extra = []
+    backend_note = ""
+    if _has_two_closures(L, inst.goal):
+        # cut rule for goals that compare two closures: first prove  R_i <= rtc_j  (a first-order fact about one step),
+        # conclude rtc_i <= rtc_j by the simulation lemma y0_rtc_lift, and use that as a hypothesis
+        extra = _closure_cuts(L, inst, budget_ms, use_cvc5)
+        if extra:
+            backend_note = "+cut"
+    st, backend, ms, s, why = prove(L, inst.hyps, inst.goal, budget_ms, use_cvc5, extra)
     smt2 = s.to_smt2() if want_smt2 else None
-    if r == z3.unsat:
-        return idx, "discharged", ms, None, "", smt2, "z3"
-    if r == z3.sat:
+    if st == "unsat":
+        return idx, "discharged", ms, None, "", smt2, backend + backend_note
+    if st == "sat":
         model = None
         if L.k is not None:
             try:
                 model = _decode(L, s.model(), inst.probes)
             except Exception as e:   # pragma: no cover
                 model = {"decode_error": repr(e)}
-        return idx, "refuted", ms, model, "", smt2, "z3"
-    reason = s.reason_unknown()
-    if use_cvc5 and L.k is None:
-        txt = s.to_smt2()
-        t1 = time.time()
-        try:
-            p = subprocess.run([CVC5, "--lang=smt2", f"--tlimit={budget_ms}", "--full-saturate-quant"],
-                               input=txt, capture_output=True, text=True, timeout=budget_ms / 1000 + 5)
-            ans = p.stdout.strip().splitlines()[0] if p.stdout.strip() else ""
-        except Exception as e:   # pragma: no cover
-            ans = ""
-        ms2 = (time.time() - t1) * 1000
-        if ans == "unsat":
-            return idx, "discharged", ms + ms2, None, "", smt2, "cvc5"
-    return idx, "undecided", ms, None, reason, smt2, "z3"
+        return idx, "refuted", ms, model, "", smt2, backend
+    return idx, "undecided", ms, None, why or "unknown", smt2, backend
+
+
+def _goal_closures(L, goal):
+    from .logic import symbols_of
+    syms = symbols_of(goal)
+    return [(n, R, C) for n, R, C in L.closures if n in syms]
+
+
+def _has_two_closures(L, goal):
+    return L.k is None and len(_goal_closures(L, goal)) >= 2
+
+
+CUT_DEADLINE_S = {"quick": 25.0, "thorough": 900.0}
+TIER = os.environ.get("Y0VC_TIER", "quick")
+
+
+def _closure_cuts(L, inst, budget_ms, use_cvc5=True):
+    """For every ordered pair of closures in the goal try to establish rtc_i <= rtc_j from a one-step fact:
+         forall a b. R_i(a,b) -> R_j(a,b) | a = b          (first-order; proved by case analysis on R_i(a0,b0))
+       or forall a b. R_i(a,b) -> rtc_j(a,b),
+       either of which gives rtc_i <= rtc_j by y0_rtc_lift.  Returns the established inclusions."""
+    from .logic import split_cases
+    out = []
+    cl = _goal_closures(L, inst.goal)
+    deadline = time.time() + CUT_DEADLINE_S.get(TIER, 25.0)
+    for (ni, Ri, Ci) in cl:
+        for (nj, Rj, Cj) in cl:
+            if ni == nj:
+                continue
+            if time.time() > deadline:
+                return out
+            ok = False
+            a0, b0 = L.node("a0"), L.node("b0")
+            step = L.Or(Rj(a0, b0), a0 == b0)
+            st, _, _, _, _ = prove(L, list(inst.hyps) + [Ri(a0, b0)], step, min(budget_ms, 2000), use_cvc5=False)
+            if st == "unsat":
+                ok = True
+            elif st == "unknown":
+                cases = split_cases(L, Ri(a0, b0), depth=4, cap=160)
+                if 1 < len(cases) <= 200:
+                    ok = True
+                    for c in cases:
+                        if time.time() > deadline:
+                            ok = False
+                            break
+                        st, _, _, _, _ = prove(L, list(inst.hyps) + c, step, max(budget_ms, 20000), use_cvc5)
+                        if st != "unsat":
+                            ok = False
+                            break
+            if not ok:
+                sub = L.forall(2, lambda a, b: L.Implies(Ri(a, b), Cj(a, b)))
+                st, _, _, _, _ = prove(L, inst.hyps, sub, min(budget_ms, 10000), use_cvc5)
+                ok = st == "unsat"
+            if ok:
+                out.append(L.forall(2, lambda a, b: L.Implies(Ci(a, b), Cj(a, b))))
+    return out
 
 
 def solve_all(instances, budget_ms=10000, procs=None, want_smt2=False, use_cvc5=True):
